@@ -166,6 +166,9 @@ H("transpose", "c20_portable_transpose_32x16", tier="thorough", timeout=1800, wh
 # C11
 for ln, t in ((0, "quick"), (1, "quick"), (7, "quick"), (8, "quick"), (9, "quick"), (15, "thorough"), (16, "quick"), (17, "quick"), (31, "thorough"), (33, "thorough"), (63, "thorough"), (64, "thorough")):
     H("alsz", f"c11_pack_roundtrip_{ln}", tier=t, what="boolvec_to_u8vec/u8vec_to_boolvec: length ceil(len/8), bit i == choice i, zero padding, round trip", bounds=f"length {ln}, all bit patterns", functions=["ot_core::alsz::boolvec_to_u8vec", "ot_core::alsz::u8vec_to_boolvec"], panic_prop="C11")
+H("kos", "c11_kos_correlated_output_stage", needs_segment=["kos_send_corr", "kos_recv_corr"],
+  what="correlated OT output stage, sender and receiver loops composed: received_j == x0_j ^ (choice_j & delta_j), x1_j == x0_j ^ delta_j, both sides return the requested length; index/tweak/offset agreement between the two sides",
+  bounds="3 transfers, all blocks symbolic; ALSZ matrix correlation t_j = q_j ^ choice_j*s assumed; TCCR hash = arbitrary function on the evaluated points", functions=["ot_core::kos::Sender::send_correlated (output loop)", "ot_core::kos::Receiver::recv_correlated (output loop)"], panic_prop="C11", stubs=["AesHash::tccr_hash_block -> arbitrary function (textual substitution)"])
 H("ot", "c11_block_u128_byte_order", what="block_to_u128(Block::from(x.to_be_bytes())) == x; XOR commutes; big-endian over block bytes", bounds="all 2^128 values", functions=["ot::block_to_u128", "Block::from<[u8;16]>"], panic_prop="C11")
 
 # C09
@@ -315,12 +318,13 @@ PROPS["C10"] = dict(
 
 PROPS["C11"] = dict(
     level="model_checking",
-    level_text="Bounded model checking of the length/packing/byte-order layer of OT extension: choice-bit packing for every residue mod 8, and the big-endian Block<->u128 convention shared with delta.",
-    level_note="Partial: packing and byte order. Not covered: the cryptographic correlation recv = x0 ^ b*delta (base OT, AES, TCCR), KOS check, session sequencing.",
+    level_text="Bounded model checking of the length/packing/byte-order layer of OT extension (choice-bit packing for every residue mod 8, the big-endian Block<->u128 convention shared with delta) and of the correlated-OT output stage: the sender's and the receiver's output loops, cut from the source and composed, give received = x0 ^ (choice & delta) at every index.",
+    level_note="Partial: packing, byte order, output stage (3 transfers) with the ALSZ matrix correlation assumed and the TCCR hash an arbitrary function. Not covered: base OT, matrix generation/transposition shapes for every length, session sequencing. " + SEG,
     explanation="Kani/CBMC on boolvec_to_u8vec/u8vec_to_boolvec/block_to_u128.",
     outside="lengths {0,1,7,8,9,15,16,17,31,33,63,64}.",
-    assumptions=[FMT, TRACING],
+    assumptions=[FMT, TRACING, "ALSZ correlation of the transposed matrices (t_j = q_j ^ choice_j * s) assumed in the output-stage harness", "AesHash::tccr_hash_block replaced by an arbitrary function on the evaluated points"],
     harnesses=by_prefix("c11_"),
+    segments=["kos_send_corr", "kos_recv_corr"],
 )
 
 PROPS["C18"] = dict(
